@@ -187,6 +187,46 @@ def generate():
     arr = _body(strip_comments(read(S + "array.h")), r"static\s+bool\s+deserialize\s*\(")
     if not re.search(r"for\s*\(size_t i = 0; i < N; \+\+i\)\s*\{.*deserialize_packed_field\(is,\s*value\[i\]\)", arr, re.S):
         raise ExtractError("T[N]::deserialize: body changed")
+    # ---- trait initialisers of every container header (SERIALIZABLE / SIZE_CACHED / SIZE_COMPLEXITY) -------------
+    def trait_expr(fname, name, nth=0):
+        t = strip_comments(read(S + fname))
+        ms = list(re.finditer(r"static\s+constexpr\s+\w+\s+" + name + r"\s*=\s*(.*?);", t, re.S))
+        if len(ms) <= nth:
+            return "<default>"
+        e = re.sub(r"\s+", "", ms[nth].group(1))
+        e = e.replace("SerializeTraits<MutableType>::", "T.").replace("SerializeTraits<T>::", "T.")
+        e = e.replace("SerializeTraits<K>::", "K.").replace("SerializeTraits<V>::", "V.")
+        e = e.replace("SerializationHelper::SERIALIZED_SIZE_COMPLEXITY_", "")
+        return e
+    exprs = []
+    for fname, key, nth in [("vector.h", "vector", 0), ("vector.h", "vectorBool", 1), ("list.h", "list", 0),
+                            ("array.h", "array", 0), ("unordered_set.h", "set", 0), ("unordered_map.h", "map", 0),
+                            ("unique_ptr.h", "uniquePtr", 0), ("shared_ptr.h", "sharedPtr", 0), ("string.h", "string", 0)]:
+        for tr in ["SERIALIZABLE", "SERIALIZED_SIZE_CACHED", "SERIALIZED_SIZE_COMPLEXITY"]:
+            exprs.append('("%s.%s", "%s")' % (key, tr, trait_expr(fname, tr, nth)))
+    items.append("def traitExprs : List (String × String) := [\n  " + ",\n  ".join(exprs) + "]")
+    pe = [trait_expr(f, "SERIALIZED_SIZE_COMPLEXITY") for f in ("unique_ptr.h", "shared_ptr.h")]
+    if pe[0] != pe[1]:
+        raise ExtractError("unique_ptr and shared_ptr declare different size complexities: %r" % (pe,))
+    if pe[0] == "T.SERIALIZED_SIZE_COMPLEXITY":
+        inherits = True
+    elif pe[0] == "T.SERIALIZED_SIZE_COMPLEXITY==TRIVIAL?SIMPLE:T.SERIALIZED_SIZE_COMPLEXITY":
+        inherits = False
+    else:
+        raise ExtractError("smart pointer SERIALIZED_SIZE_COMPLEXITY not understood: " + pe[0])
+    items.append("def ptrInheritsTrivial : Bool := %s" % ("true" if inherits else "false"))
+    # the TRIVIAL shortcut of calculate_serialized_size exists in vector.h and array.h only
+    for fname, has in [("vector.h", True), ("array.h", True), ("list.h", False), ("unordered_set.h", False), ("unordered_map.h", False)]:
+        t = strip_comments(read(S + fname))
+        b = _body(t, r"static\s+size_t\s+calculate_serialized_size\s*\(")
+        found = bool(re.search(r"SERIALIZED_SIZE_COMPLEXITY_TRIVIAL\)\s*\{[^}]*calculate_serialized_size_packed_field\(\s*value\[0\]\)", b, re.S))
+        if found != has:
+            raise ExtractError("%s: TRIVIAL size shortcut %s" % (fname, "disappeared" if has else "appeared"))
+    items.append('def trivialShortcutIn : List String := ["vector", "array"]')
+    tc = strip_comments(read(S + "traits.hpp"))
+    if not re.search(r"if\s+CONSTEXPR_SINCE_CXX17\s*\(SerializeTraits<T>::SERIALIZED_SIZE_CACHED\)\s*\{\s*SerializeTraits<T>::calculate_serialized_size\(value\);\s*\}\s*return serialize_to_coded_stream_with_cached_size", tc, re.S):
+        raise ExtractError("serialize_to_coded_stream: `SERIALIZED_SIZE_CACHED => calculate first` rule changed")
+    items.append("def calculateFirstIffSizeCached : Bool := true")
     # ---- scalar kinds: 32 vs 64 bit varint I/O ---------------------------------------------
     sc = strip_comments(read(S + "scalar.h"))
     groups = re.findall(r"#define\s+BABYLON_TMP_GEN\(type\)(.*?)#undef\s+BABYLON_TMP_GEN", sc, re.S)
@@ -238,6 +278,21 @@ def generate():
         "uptrS": "::std::unique_ptr<::std::string>", "sptrI": "::std::shared_ptr<int64_t>", "sptrD": "::std::shared_ptr<double>",
         "sptrS": "::std::shared_ptr<::std::string>", "agg": "ProbeAgg", "aggTrivial": "ProbeTrivial",
     }
+    TR = {   # sample types for SERIALIZED_SIZE_CACHED / SERIALIZED_SIZE_COMPLEXITY (Lean side: Properties.C11.traitSamples)
+        "f32": "float", "i32": "int32_t", "str": "::std::string", "vecf32": "::std::vector<float>",
+        "veci32": "::std::vector<int32_t>", "vecbool": "::std::vector<bool>", "listf32": "::std::list<float>",
+        "listi32": "::std::list<int32_t>", "seti32": "::std::unordered_set<int32_t>", "arri32": "ArrI3", "arrf64": "ArrD2",
+        "map_i32_i32": "::std::unordered_map<int32_t, int32_t>", "uptrf32": "::std::unique_ptr<float>",
+        "sptrf64": "::std::shared_ptr<double>", "uptri32": "::std::unique_ptr<int32_t>", "sptrstr": "::std::shared_ptr<::std::string>",
+        "small": "ProbeAgg", "trivial": "ProbeTrivial", "cx": "ProbeCx", "many": "ProbeMany", "nine": "ProbeNine",
+        "outer": "ProbeOuter", "ptrtrivial": "ProbePtrTrivial", "basecx": "ProbeBaseCx", "uptr_trivial": "::std::unique_ptr<ProbeTrivial>",
+        "vec_cx": "::std::vector<ProbeCx>", "vec_small": "::std::vector<ProbeAgg>", "vec_trivial": "::std::vector<ProbeTrivial>",
+        "list_cx": "::std::list<ProbeCx>", "set_cx": "::std::unordered_set<ProbeCx>", "arr_cx": "ArrCx2", "uptr_cx": "::std::unique_ptr<ProbeCx>",
+        "sptr_many": "::std::shared_ptr<ProbeMany>", "map_str_cx": "::std::unordered_map<::std::string, ProbeCx>",
+        "map_cx_i32": "::std::unordered_map<ProbeCx, int32_t>", "map_cx_many": "::std::unordered_map<ProbeCx, ProbeMany>",
+        "map_str_small": "::std::unordered_map<::std::string, ProbeAgg>", "map_i32_vec": "::std::unordered_map<int32_t, ::std::vector<int32_t>>",
+        "map_str_uptrcx": "::std::unordered_map<::std::string, ::std::unique_ptr<ProbeCx>>", "vec_map_str_cx": "::std::vector<::std::unordered_map<::std::string, ProbeCx>>",
+    }
     prologue = """
 #include <list>
 #include <unordered_map>
@@ -247,6 +302,13 @@ using ArrI3 = int32_t[3];
 using ArrD2 = double[2];
 struct ProbeAgg { int32_t a; ::std::string s; BABYLON_SERIALIZABLE((a, 1)(s, 2)); };
 struct ProbeTrivial { float a; double b; BABYLON_SERIALIZABLE((a, 1)(b, 2)); };
+struct ProbeCx { int32_t a; ::std::vector<int32_t> v; BABYLON_SERIALIZABLE((a, 1)(v, 2)); };
+struct ProbeMany { int32_t a, b, c, d, e, f, g, h, i, j; BABYLON_SERIALIZABLE((a, 1)(b, 2)(c, 3)(d, 4)(e, 5)(f, 6)(g, 7)(h, 8)(i, 9)(j, 10)); };
+struct ProbeNine { int32_t a, b, c, d, e, f, g, h, i; BABYLON_SERIALIZABLE((a, 1)(b, 2)(c, 3)(d, 4)(e, 5)(f, 6)(g, 7)(h, 8)(i, 9)); };
+struct ProbeOuter { ProbeCx inner; BABYLON_SERIALIZABLE((inner, 1)); };
+struct ProbePtrTrivial { ::std::unique_ptr<float> p; BABYLON_SERIALIZABLE((p, 1)); };
+struct ProbeBaseCx : public ::std::vector<int32_t> { int32_t a; BABYLON_SERIALIZABLE_WITH_BASE((::std::vector<int32_t>, 1), (a, 2)); };
+using ArrCx2 = ProbeCx[2];
 using H = ::babylon::SerializationHelper;
 using W = ::google::protobuf::internal::WireFormatLite;
 using O = ::google::protobuf::io::CodedOutputStream;
@@ -255,6 +317,9 @@ using O = ::google::protobuf::io::CodedOutputStream;
     for k, t in K.items():
         ex["wt_" + k] = "::babylon::SerializeTraits<%s>::WIRE_TYPE" % t
         ex["cx_" + k] = "::babylon::SerializeTraits<%s>::SERIALIZED_SIZE_COMPLEXITY" % t
+    for k, t in TR.items():
+        ex["tc_" + k] = "::babylon::SerializeTraits<%s>::SERIALIZED_SIZE_CACHED" % t
+        ex["tx_" + k] = "::babylon::SerializeTraits<%s>::SERIALIZED_SIZE_COMPLEXITY" % t
     for name in ["WIRETYPE_VARINT", "WIRETYPE_FIXED64", "WIRETYPE_LENGTH_DELIMITED", "WIRETYPE_FIXED32"]:
         ex["c_" + name] = "W::" + name
     ex["cx_COMPLEX"] = "H::SERIALIZED_SIZE_COMPLEXITY_COMPLEX"
@@ -283,6 +348,8 @@ using O = ::google::protobuf::io::CodedOutputStream;
     items += [nat_def("cxComplex", c["cx_COMPLEX"]), nat_def("cxSimple", c["cx_SIMPLE"]), nat_def("cxTrivial", c["cx_TRIVIAL"])]
     items.append("def wireTypes : List (String × Nat) := [" + ", ".join('("%s", %d)' % (k, c["wt_" + k]) for k in K) + "]")
     items.append("def complexities : List (String × Nat) := [" + ", ".join('("%s", %d)' % (k, c["cx_" + k]) for k in K) + "]")
+    items.append("def probedTraits : List (String × Nat × Bool) := [" + ", ".join(
+        '("%s", %d, %s)' % (k, c["tx_" + k], "true" if c["tc_" + k] else "false") for k in TR) + "]")
     items.append("def varintSizeAtPow2 : List Nat := [" + ", ".join(str(c["vs_p%d" % k]) for k in range(64)) + "]")
     items.append("def varintSizeBelowPow2 : List Nat := [" + ", ".join(str(c["vs_m%d" % k]) for k in range(64)) + ", %d]" % c["vs_max"])
     items.append("def pbVarintSize64AtPow2 : List Nat := [" + ", ".join(str(c["pb64_p%d" % k]) for k in range(64)) + "]")
